@@ -2036,9 +2036,9 @@ void eval_instruction (const char *p) {
                 if ((sp - 1)->type != T_NUMBER)
                   error ("*Buffer indexes must be integers.");
 
-                i = (int)(sp - 1)->u.number;
-                if ((i > (int)sp->u.buf->size) || (i < 0))
+                if (((sp - 1)->u.number >= (int64_t)sp->u.buf->size) || ((sp - 1)->u.number < 0))
                   error ("*Buffer index out of bounds.");
+                i = (int)(sp - 1)->u.number;
                 i = sp->u.buf->item[i];
                 free_buffer (sp->u.buf);
                 (--sp)->u.number = i;
@@ -2051,9 +2051,9 @@ void eval_instruction (const char *p) {
                   {
                     error ("*String indexes must be integers.");
                   }
-                i = (int)(sp - 1)->u.number;
-                if ((i > (int)SVALUE_STRLEN (sp)) || (i < 0))
+                if (((sp - 1)->u.number > (int64_t)SVALUE_STRLEN (sp)) || ((sp - 1)->u.number < 0))
                   error ("*String index out of bounds.");
+                i = (int)(sp - 1)->u.number;
                 i = (unsigned char) sp->u.string[i];
                 free_string_svalue (sp);
                 (--sp)->u.number = i;
@@ -2065,12 +2065,12 @@ void eval_instruction (const char *p) {
 
                 if ((sp - 1)->type != T_NUMBER)
                   error ("*Array indexes must be integers.");
-                i = (int)(sp - 1)->u.number;
-                if (i < 0)
+                if ((sp - 1)->u.number < 0)
                   error ("*Array index must be positive or zero.");
                 arr = sp->u.arr;
-                if (i >= arr->size)
+                if ((sp - 1)->u.number >= (int64_t)arr->size)
                   error ("*Array index out of bounds.");
+                i = (int)(sp - 1)->u.number;
                 assign_svalue_no_free (--sp, &arr->item[i]);
                 free_array (arr);
                 break;
@@ -2101,9 +2101,9 @@ void eval_instruction (const char *p) {
                 if ((sp - 1)->type != T_NUMBER)
                   error ("*Indexing a buffer with an illegal type.");
 
-                i = sp->u.buf->size - (int)(sp - 1)->u.number;
-                if ((i > (int)sp->u.buf->size) || (i < 0))
+                if (((sp - 1)->u.number < 1) || ((sp - 1)->u.number > (int64_t)sp->u.buf->size))
                   error ("*Buffer index out of bounds.");
+                i = sp->u.buf->size - (int)(sp - 1)->u.number;
 
                 i = sp->u.buf->item[i];
                 free_buffer (sp->u.buf);
@@ -2118,9 +2118,9 @@ void eval_instruction (const char *p) {
                   {
                     error ("*Indexing a string with an illegal type.");
                   }
-                i = (int)(len - (sp - 1)->u.number);
-                if ((i > (int)len) || (i < 0))
+                if (((sp - 1)->u.number < 0) || ((sp - 1)->u.number > (int64_t)len))
                   error ("*String index out of bounds.");
+                i = (int)(len - (sp - 1)->u.number);
                 i = (unsigned char) sp->u.string[i];
                 free_string_svalue (sp);
                 (--sp)->u.number = i;
@@ -2132,9 +2132,9 @@ void eval_instruction (const char *p) {
 
                 if ((sp - 1)->type != T_NUMBER)
                   error ("*Indexing an array with an illegal type.");
-                i = arr->size - (int)(sp - 1)->u.number;
-                if (i < 0 || i >= (int)(arr->size))
+                if (((sp - 1)->u.number < 1) || ((sp - 1)->u.number > (int64_t)arr->size))
                   error ("*Array index out of bounds.");
+                i = arr->size - (int)(sp - 1)->u.number;
                 assign_svalue_no_free (--sp, &arr->item[i]);
                 free_array (arr);
                 break;
